@@ -20,6 +20,8 @@ def gen(seed, extra):
     rng = random.Random(seed)
     extra = dict(extra or {})
     leaf_only = extra.pop("leaf_only", False) and seed % 2 == 0
+    if leaf_only:
+        extra["p_type_override"] = 0.0   # the flat-sum clause presupposes one type per resource name
     spec = G.gen_routine(rng, G.Opts(**extra))
     if leaf_only:
         def strip(n):
